@@ -84,6 +84,7 @@ type pools struct {
 	small []int // profile indices with small profile + at least one small data doc
 	all   []int
 	gen   []int // generated multi-key profiles
+	spec  []int // hand-written profiles with unusual features (re-bound built-in prefixes, '%' in messages, many validations)
 }
 
 func buildPools(c *Corpus, tier string) pools {
@@ -94,6 +95,9 @@ func buildPools(c *Corpus, tier string) pools {
 		}
 		if pr.Class == "generated" {
 			p.gen = append(p.gen, i)
+		}
+		if pr.Class == "special" {
+			p.spec = append(p.spec, i)
 		}
 		p.all = append(p.all, i)
 		if pr.Class != "production" && pr.Size < 6000 {
@@ -168,6 +172,10 @@ func genC10(c *Corpus, pl pools, seed uint64, tier string) *RunSpec {
 	}
 	var profs []int
 	for i := 0; i < nProf; i++ {
+		if len(pl.spec) > 0 && r.chance(15) {
+			profs = append(profs, pl.spec[r.intn(len(pl.spec))])
+			continue
+		}
 		profs = append(profs, pool[r.intn(len(pool))])
 	}
 	lim := 40000
@@ -237,7 +245,12 @@ func genC09(c *Corpus, pl pools, seed uint64, tier string, failSites []string) *
 	}
 	nH := 1 + r.intn(3)
 	var hp []int
+	allSpecial := len(pl.spec) > 0 && r.chance(12)
 	for h := 0; h < nH; h++ {
+		if allSpecial || (len(pl.spec) > 0 && r.chance(10)) {
+			hp = append(hp, pl.spec[r.intn(len(pl.spec))])
+			continue
+		}
 		hp = append(hp, pool[r.intn(len(pool))])
 	}
 	n := 3 + r.intn(10)
@@ -364,6 +377,9 @@ func genC06(c *Corpus, pl pools, seed uint64, tier string) *RunSpec {
 		pool = pl.gen
 	}
 	p := pool[r.intn(len(pool))]
+	if len(pl.spec) > 0 && r.chance(15) {
+		p = pl.spec[r.intn(len(pl.spec))]
+	}
 	lim := 60000
 	if tier == "thorough" {
 		lim = 1 << 20
@@ -371,6 +387,14 @@ func genC06(c *Corpus, pl pools, seed uint64, tier string) *RunSpec {
 	d := smallData(c, r, p, lim)
 	t := pickInstant(r)
 	rc := r.intn(3)
+	// "across repeated calls": other work happens between two calls with the same inputs
+	other := func() Op {
+		q := pl.small[r.intn(len(pl.small))]
+		if len(pl.spec) > 0 && r.chance(50) {
+			q = pl.spec[r.intn(len(pl.spec))]
+		}
+		return Op{Kind: "validate_cfg", P: q, D: smallData(c, r, q, lim), T: pickInstant(r), RC: r.intn(3), H: -1}
+	}
 	nTasks := 1
 	if r.chance(40) {
 		nTasks = 2 + r.intn(3)
@@ -379,8 +403,14 @@ func genC06(c *Corpus, pl pools, seed uint64, tier string) *RunSpec {
 	for ti := 0; ti < nTasks; ti++ {
 		var ops []Op
 		ops = append(ops, Op{Kind: "validate_cfg", P: p, D: d, T: t, RC: rc, H: -1})
+		if r.chance(40) {
+			ops = append(ops, other())
+		}
 		if r.chance(60) {
 			ops = append(ops, Op{Kind: "validate_cfg", P: p, D: d, T: t, RC: rc, H: -1})
+		}
+		if r.chance(25) {
+			ops = append(ops, other())
 		}
 		if r.chance(50) {
 			ops = append(ops, Op{Kind: "compile", P: p, D: -1, H: slot, T: t})
